@@ -50,8 +50,14 @@ func genCase(t *rapid.T) Case {
 	}
 	if rapid.IntRange(0, 3).Draw(t, "sorting") == 0 {
 		for i, col := range cols {
-			if col.MaxRep == 0 && len(col.Path) == 1 && len(c.Sorting) < 2 && rapid.Bool().Draw(t, "sc") {
+			if col.MaxRep == 0 && len(col.Path) == 1 && len(c.Sorting) < 3 && rapid.Bool().Draw(t, "sc") {
 				c.Sorting = append(c.Sorting, i)
+			}
+		}
+		// the priority order of the keys need not be the order of the columns in the schema
+		if len(c.Sorting) > 1 && rapid.Bool().Draw(t, "screv") {
+			for i, j := 0, len(c.Sorting)-1; i < j; i, j = i+1, j-1 {
+				c.Sorting[i], c.Sorting[j] = c.Sorting[j], c.Sorting[i]
 			}
 		}
 	}
